@@ -69,6 +69,13 @@ pub fn gen_library(seed: u64, n: usize) -> BTreeMap<String, String> {
         }
         lib.insert(k, t);
     }
+    // many references to one note from one file: the order in which they are listed must not be that of a hash set
+    let mut many = String::from("# Many references\n\n");
+    for j in 0..9 {
+        many.push_str(&format!("para {} [l{}](shared/leaf)\n\n", j, j));
+    }
+    many.push_str("- item [x](shared/leaf)\n- item two [y](shared/leaf)\n\n[leaf](shared/leaf)\n");
+    lib.insert("manyrefs".to_string(), many);
     // a reference cycle that is reachable from a root: cyc0 <-> cyc1, and two roots that include one of them each
     lib.insert("cyc0".to_string(), "# Cycle zero\n\n[one](cyc1)\n\ntext\n".to_string());
     lib.insert("cyc1".to_string(), "# Cycle one\n\n[zero](cyc0)\n\n## Inner\n\ntext\n".to_string());
@@ -188,9 +195,41 @@ pub fn cmd_dump(args: &[String]) -> i32 {
             Database::new(state, false, MarkdownOptions::default())
         }
     };
-    let d = dump(&db);
+    let mut d = dump(&db);
+    // what the LSP server answers to find-references (an ordered list) for every note of the library
+    let refs = lsp_references(&lib);
+    d["digests"]["lsp_references"] = json!(digest(&refs));
+    d["full"]["lsp_references"] = refs;
     std::fs::write(&args[5], serde_json::to_string(&d).unwrap()).unwrap();
     0
+}
+
+fn lsp_references(lib: &BTreeMap<String, String>) -> Value {
+    use iwes::router::server::Server;
+    use iwes::router::{LspClient, ServerConfig};
+    use lsp_types::{PartialResultParams, Position, ReferenceContext, ReferenceParams, TextDocumentIdentifier, TextDocumentPositionParams, Url, WorkDoneProgressParams};
+    let state: HashMap<String, String> = lib.iter().map(|(k, v)| (k.clone(), v.clone())).collect();
+    let server = Server::new(ServerConfig {
+        base_path: "/basepath".to_string(),
+        state,
+        sequential_ids: None,
+        configuration: Default::default(),
+        lsp_client: LspClient::Unknown,
+    });
+    let mut out = serde_json::Map::new();
+    for k in lib.keys() {
+        let uri = Url::parse(&format!("file:///basepath/{}.md", k)).unwrap();
+        let locs = server.handle_references(ReferenceParams {
+            text_document_position: TextDocumentPositionParams { text_document: TextDocumentIdentifier { uri }, position: Position::new(0, 0) },
+            work_done_progress_params: WorkDoneProgressParams::default(),
+            partial_result_params: PartialResultParams::default(),
+            context: ReferenceContext { include_declaration: false },
+        });
+        if locs.len() > 1 {
+            out.insert(k.clone(), json!(locs.iter().map(|l| format!("{}:{}", l.uri, l.range.start.line)).collect::<Vec<_>>()));
+        }
+    }
+    Value::Object(out)
 }
 
 /// `vh lib-search <seed> <n notes> <out.ndjson>`: what global_search returns for several queries,
